@@ -147,9 +147,10 @@ CHECKS = {
         "technique": "property-based testing (rapid) of generated waiter/signal scripts in testing/synctest bubbles; counting oracle after quiescence",
         "rule": ("kinds cond (plans: k in 1..5 waiters each parked or held in the unlock-to-park window, some with a context that has already ended, up to 3 late entrants that enter Wait in the middle of the 0-8 steps) and broadcast-storm (K parked waiters, noise goroutines doing ended-context Waits and/or Signals while one Broadcast is issued, 100-400 rounds per case; always non-trivial). cond plans: non-trivial = at least 2 waiters and a Signal or Broadcast is issued while some waiter is in the window; distinct = distinct plan JSON; every plan is executed R times (quick 3, thorough 10)"),
         "assumptions": ["testing/synctest durable-block detection", "the gated Locker identifies the unlocking waiter because Lock is exclusive", "rapid v1.3.0; go1.26.8"],
-        "jobs": [{"pkg": "c16cond", "kinds": ["cond", "broadcast-storm"], "scale_thorough": 10, "shards_thorough": 16, "replay_reps": 50},
-                 {"pkg": "c16cond", "goarch": "386", "kinds": ["cond", "broadcast-storm"], "scale_quick": 0.1, "scale_thorough": 1, "shards_thorough": 2},
-                 {"pkg": "c16cond", "race": True, "kinds": ["cond", "broadcast-storm"], "scale_quick": 0.15, "scale_thorough": 2, "shards_thorough": 4, "replay_reps": 20}],
+        "jobs": [{"pkg": "c16cond", "run": "TestCondRealStorm", "kinds": ["cond-real-storm"], "shards_quick": 2, "scale_quick": 2, "scale_thorough": 8, "shards_thorough": 8},
+                 {"pkg": "c16cond", "run": "TestContextCond|TestBroadcastStorm", "kinds": ["cond", "broadcast-storm"], "scale_thorough": 10, "shards_thorough": 16, "replay_reps": 50},
+                 {"pkg": "c16cond", "run": "TestContextCond|TestBroadcastStorm", "goarch": "386", "kinds": ["cond", "broadcast-storm"], "scale_quick": 0.1, "scale_thorough": 1, "shards_thorough": 2},
+                 {"pkg": "c16cond", "run": "TestContextCond|TestBroadcastStorm", "race": True, "kinds": ["cond", "broadcast-storm"], "scale_quick": 0.15, "scale_thorough": 2, "shards_thorough": 4, "replay_reps": 20}],
     },
     "C11": {
         "level": "exploration",
@@ -296,7 +297,7 @@ RULE_ADDENDA = {
     "C13": " Errors of mixed concrete types, n up to 8192 incl. multiples of 64, nested Do/Map inside the callbacks. Also runs for GOARCH=386.",
     "C14": " Also: 'lockstep' sources that only produce once the consumer has taken the previous result (bubble, and kind map-lockstep on the real clock), contexts that are already done at construction, f errors with a value attached. Also runs for GOARCH=386.",
     "C15": " Heap elements may hold pointers; setups include a big deque drained to a quarter; one call past the end may precede the mid ops; a second iterator may be open.",
-    "C16": " The cond may be stored by value after construction ('by_value'); broadcast-storm variants with a shared RLocker and bursts of simultaneous Signals. Also runs for GOARCH=386.",
+    "C16": " Kind cond-real-storm (own process, real clock, no bubble): per round a waiter enters Wait while a Broadcast made without the lock is aimed at that instant, then - once the lock can be taken, i.e. the waiter has released it - one Signal; 0-4 further goroutines call Signal / Broadcast without the lock; everybody is through within 10 s (always non-trivial). The cond may be stored by value after construction ('by_value'); broadcast-storm variants with a shared RLocker and bursts of simultaneous Signals. Also runs for GOARCH=386.",
     "C17": " Real-clock kinds in c17old: pot-old-timers, pot-trigger-real (a trigger aimed at the end of a run), stop-reentrant (a group function that calls into the group while StopAndWait waits), group-dropped (a Group nobody references keeps running until stopped, across GCs). Also runs for GOARCH=386.",
     "C18": " sync-storm modes: loadorstore, loadanddelete, nomatch (a failing CompareAndDelete/CompareAndSwap is invisible to concurrent observers), watchable with 1-3 setters; future waiters that arrive late with deadline contexts. Also runs for GOARCH=386.",
     "C19": " Also: inputs of thousands of items (strategy switches), stateful callbacks (call counts), huge arguments, sampling over populations up to MaxInt64/2, kind sample-race (package-level xrand functions from several goroutines under the race detector).",
